@@ -113,6 +113,18 @@ template <class G> Obs iterSeg(const G &g) {
         return (Z)eq; }));
     return o;
 }
+// C17: an argument may be handed over as a reference to an element of the graph's OWN adjacency lists - perfectly valid use of an API
+// that takes vertex indices by value (g.removeVertexFromEdgeList(g.getOutNeighbours(2).front())). Same meaning as passing the number.
+template <class G> void removeVertexAliased(G &g, long v) {
+    if (v >= 0 && (size_t)v < g.getSize())
+        for (BaseGraph::VertexIndex u : g) for (const BaseGraph::VertexIndex &w : g.getOutNeighbours(u)) if ((long)w == v) { g.removeVertexFromEdgeList(w); return; }
+    g.removeVertexFromEdgeList(v);
+}
+template <class G> void removeEdgeAliased(G &g, long i, long j) {
+    if (i >= 0 && (size_t)i < g.getSize())
+        for (const BaseGraph::VertexIndex &w : g.getOutNeighbours(i)) if ((long)w == j) { g.removeEdge(i, w); return; }
+    g.removeEdge(i, j);
+}
 inline std::vector<std::string> splitOps(const std::string &body) {
     std::vector<std::string> r; std::stringstream ss(body); std::string op;
     while (std::getline(ss, op, ';')) { std::istringstream is(op); std::string k; if (is >> k) r.push_back(op); }
